@@ -141,6 +141,25 @@ def run_rows(case, ctx):
                     continue
                 Q = spec.query(rng, D)
                 n = nrows(Q)
+                # tree-based models: rows placed on the split thresholds and within half a float32 ulp of them
+                # (scikit-learn compares the float32 cast of a feature with the threshold)
+                trees_ = [t_ for t_ in (getattr(est, "tree_", None), getattr(getattr(est, "binner_", None), "tree_", None))
+                          if t_ is not None and hasattr(t_, "threshold") and hasattr(t_, "children_left")]
+                if trees_ and isinstance(Q, numpy.ndarray) and Q.ndim == 2 and Q.dtype == numpy.float64:
+                    extra_ = []
+                    t_ = trees_[0]
+                    for node_ in numpy.where(t_.children_left != -1)[0][:12]:
+                        f_, th_ = int(t_.feature[node_]), float(t_.threshold[node_])
+                        if f_ >= Q.shape[1]:
+                            continue
+                        th32 = float(numpy.float32(th_))
+                        for v_ in (th32, th32 * (1 + 2e-8) if th32 else 1e-46, th32 * (1 - 2e-8) if th32 else -1e-46):
+                            r_ = Q[rng.randint(n)].copy()
+                            r_[f_] = v_
+                            extra_.append(r_)
+                    if extra_:
+                        Q = numpy.vstack([Q] + [numpy.array(extra_)])
+                        n = nrows(Q)
                 if n >= 3:
                     Q = take(Q, list(range(n)) + [0, 1, 1])   # exact duplicates
                     n = nrows(Q)
